@@ -18,7 +18,8 @@ EXPLANATION = (
     "exec-generated operator family contains every binary, reflected and in-place operator of {add, sub, mul, truediv, "
     "floordiv, pow}, and each generated method first checks folding equality, ORs the masks and carries folding status, "
     "labels and extrap_x; the likelihood entry points share one auto-fold guard. Numerical conservation on particular arrays "
-    "is not decided.")
+    "is not decided."
+    ' R-DTYPE: the per-entry allele totals, counts and folded data are held in wide fixed types (no numpy.min_scalar_type / uint8 / float32 / dtype borrowed from an argument); reverse_array indexes its argument itself (numpy.asarray / array / getdata would drop the mask that has to be mirrored).')
 TECHNIQUE = "abstract interpretation over cell classes (linear forms + mask truth tables) + operator-family exhaustiveness + sibling guards"
 DECLINED = ["numerical conservation on particular arrays", "behaviour of numpy.ma arithmetic internals"]
 
